@@ -65,6 +65,9 @@ theorem oidOf_finish_ne (st : State) (sid j : Nat) (h : j ≠ sid) : (st.finish 
   simp only [State.oidOf, State.finish]
   rw [find_filter_ne _ _ _ h]
 
+theorem oidOf_unregister_ne (st : State) (sid j : Nat) (h : j ≠ sid) : (st.unregister sid).oidOf j = st.oidOf j :=
+  oidOf_finish_ne st sid j h
+
 theorem oidOf_markChannel_ne (st : State) (oid : Nat) (s : Stream) (r t : Bool) (j : Nat) (h : j ≠ s.sid) :
     (markChannel st oid s r t).oidOf j = st.oidOf j := by
   simp only [markChannel]
@@ -122,7 +125,7 @@ theorem oidOf_handleByType_ne (st : State) (f : Frame) (b : Behaviour) (j : Nat)
 
 theorem oidOf_stopOne_ne (st : State) (sid oid j : Nat) (h : j ≠ sid) : (stopOne st sid oid).1.oidOf j = st.oidOf j := by
   unfold stopOne
-  (repeat' split) <;> simp [oidOf_finish_ne _ _ _ h]
+  (repeat' split) <;> simp [oidOf_finish_ne _ _ _ h, oidOf_unregister_ne _ _ _ h]
 
 /-! ### property theorems -/
 
